@@ -407,7 +407,7 @@ def drawsUsed (forced : Bool) (params : Params) : Nat :=
 def s3ShouldSample (ratio : Option Q) (d : Q) : Bool :=
   match ratio with
   | none => true
-  | some r => rateAlways r || drawKeeps d r
+  | some r => Q.cmp PlaybackModel.Source.s3RateAlwaysCmp r ⟨1, 1⟩ || Q.cmp PlaybackModel.Source.s3DrawKeepCmp d r
 
 /-- is there an output whose key contains the reserved operation alias?  (`OPERATION_OUTPUT_ALIAS in o.key`) -/
 def hasOpOutput (aliasContainsOp : String → Bool) : Data → Bool
